@@ -113,6 +113,9 @@ add("with_fragment", "fragment", "quote", lambda Y, t: _u(Y).with_fragment(t), r
 add("with_query.str", "query", "qstring", lambda Y, t: _u(Y).with_query(t), raw=lambda u: u.raw_query_string)
 add("extend_query.str", "query", "qstring", lambda Y, t: Y.URL("http://h.example/").extend_query(t), raw=lambda u: u.raw_query_string)
 add("update_query.str", "query", "other", lambda Y, t: _u(Y).update_query(t))
+# update_query()/% parse a string argument; on a URL without a query the result's pairs are exactly the pairs the text stands for
+add("update_query.str.noquery", "query", "qparse", lambda Y, t: Y.URL("http://h.example/p").update_query(t), raw=lambda u: u.raw_query_string)
+add("mod.str.noquery", "query", "qparse", lambda Y, t: Y.URL("//h.example") % t, raw=lambda u: u.raw_query_string)
 add("with_query.dict", "qpair", "quote", lambda Y, t: _u(Y).with_query({t: t}), needs=lambda t: t != "")
 add("with_query.pairs", "qpair", "quote", lambda Y, t: _u(Y).with_query([(t, t)]), needs=lambda t: t != "")
 add("with_query.kwargs", "qpair", "quote", lambda Y, t: _u(Y).with_query(**{t: t}), needs=lambda t: t != "")
@@ -129,6 +132,12 @@ add("div", "path", "quote", lambda Y, t: _u(Y) / t, raw=lambda u: u.raw_path, re
 add("joinpath", "path", "quote", lambda Y, t: _u(Y).joinpath(t), raw=lambda u: u.raw_path, readback=lambda u: u.path, prefix="/b0/c0/", tags=["auth-path", "child"],
     needs=lambda t: not t.startswith("/"))
 add("div.rel", "path", "quote", lambda Y, t: Y.URL("/r0") / t, raw=lambda u: u.raw_path, readback=lambda u: u.path, prefix="/r0/", tags=["child"],
+    needs=lambda t: not t.startswith("/"))
+
+# a scheme alone is not an authority: nothing is normalised under file:///..., urn:...
+add("div.scheme-noauth", "path", "quote", lambda Y, t: Y.URL("file:///r0/s0") / t, raw=lambda u: u.raw_path, readback=lambda u: u.path, prefix="/r0/s0/", tags=["child"],
+    needs=lambda t: not t.startswith("/"))
+add("joinpath.scheme-rootless", "path", "quote", lambda Y, t: Y.URL("urn:r0/s0").joinpath(t), raw=lambda u: u.raw_path, readback=lambda u: u.path, prefix="r0/s0/", tags=["child"],
     needs=lambda t: not t.startswith("/"))
 
 # -- join (re-quoting: the reference and the base are canonicalised by the constructor) -----------
